@@ -25,6 +25,44 @@ def is_missing_map(e):
     return e.startswith("Missing") and e.endswith("Map")
 
 
+def table_loop_rows(prog, fn):
+    """rows of `for (k, v) in TABLE { if name == k { return Ok(f(v)) } }` over a constant TABLE of string tuples, spelled
+    like the rows of `match name { "k1" => Ok(f("v1")), "k2" => .. }`; None if the function is not of that shape"""
+    import re as _re
+    from ..facts import lit_value
+    rows = accept.ret_table(prog, fn, quantified=True)
+    oks = [(a, v) for a, v in rows if v.startswith("Ok{")]
+    if len(oks) != 1:
+        return None
+    ats, val = oks[0]
+    m = _re.search(r"x@(<?[\w:<>&\[\] ,']+?::[A-Z][A-Z0-9_]*)\[0\.\.\]", val + " " + " ".join(ats))
+    if not m:
+        return None
+    cpath = m.group(1)
+    c = prog.consts.get(cpath)
+    if not c or "lit" not in c:
+        return None
+    try:
+        table = lit_value(c["lit"], prog)
+    except Exception:
+        return None
+    if not (isinstance(table, list) and table and all(isinstance(e, tuple) and all(isinstance(x, str) for x in e) for e in table)):
+        return None
+    wit = "x@%s[0..]" % cpath
+    if len(ats) != 1 or not _re.match(r"^arg1 - %s\.0 == 0$" % _re.escape(wit), ats[0]):
+        return None
+    out = []
+    for k, e in enumerate(table):
+        a_ = ["cmp Eq %r [0..L)" % e[0]] + ["cmp Ne %r [0..L)" % table[j][0] for j in range(k)]
+        v_ = val
+        for i_, x in enumerate(e):
+            v_ = v_.replace("%s.%d" % (wit, i_), repr(x))
+        if wit in v_:
+            return None
+        out.append([sorted(a_), v_])
+    return out
+
+
 def run(prog, tier, res):
     spec = accept.load_spec("c08.json")
     res.explanation = ("Literal tables read from the type-checked constants (uniqueness, permutations, cross-table membership, "
@@ -181,6 +219,12 @@ def run(prog, tier, res):
         got = [[a, v] for a, v in accept.ret_table(prog, fn, only_ok=True)]
         res.functions.add(fn)
         want = spec["bank_names"].get(bn)
+        if got != want:
+            # the same dispatch written as a first-match loop over a constant table of (name, value) string pairs:
+            # one row per table entry, in table order (a `match` on the literals)
+            tab_rows = table_loop_rows(prog, fn)
+            if tab_rows is not None:
+                got = tab_rows
         ok = got == want
         res.oblige(ok, "grammar")
         if ok:
